@@ -386,6 +386,39 @@ fn field_values(w: usize, orig: u64) -> Vec<u64> {
     v.sort_unstable(); v.dedup(); v.retain(|&x| x != orig); v
 }
 
+/// trace metadata (an untrusted field of the context, absorbed into the coin seed chunk by chunk): re-serialised contexts
+/// with metadata of every interesting length and filling, at every alignment
+fn meta_mutations(b: &Base, lay: &Layout, r: &mut Rng, out: &mut Vec<Case>) {
+    let bytes = &b.bytes;
+        let meta = lay.get("ti.meta");
+        let ebb = if b.fld == "f64" { 8usize } else { 16 };
+        let modb: Vec<u8> = if b.fld == "f64" { B64::get_modulus_le_bytes() } else { B128::get_modulus_le_bytes() };
+        let mut modp = modb.clone(); for x in modp.iter_mut() { let (y, c) = x.overflowing_add(1); *x = y; if !c { break; } }   // modulus + 1
+        let mut modm = modb.clone(); for x in modm.iter_mut() { let (y, c) = x.overflowing_sub(1); *x = y; if !c { break; } }   // modulus - 1
+        let fill = |kind: usize, n: usize, r: &mut Rng| -> Vec<u8> { match kind {
+            0 => vec![0u8; n], 1 => vec![0xff; n],
+            2 => modb.iter().cycle().take(n).copied().collect(), 3 => modp.iter().cycle().take(n).copied().collect(),
+            4 => modm.iter().cycle().take(n).copied().collect(), _ => r.bytes(n) } };
+        let kinds = ["00", "ff", "mod", "mod+1", "mod-1", "rnd"];
+        for n in [0usize, 1, ebb - 1, ebb, ebb + 1, 2 * ebb - 1, 2 * ebb, 2 * ebb + 1, 3 * ebb] {
+            for (k, kn) in kinds.iter().enumerate() {
+                if n == 0 && k > 0 { continue; }
+                out.push(vcase(b, format!("meta:len={},fill={}", n, kn), splice(bytes, meta, &fill(k, n, r))));
+            }
+        }
+        // one full-width block of 0xFF / modulus / modulus+1 after `a` zero bytes, followed by one more byte
+        for a in 0..2 * ebb {
+            for k in [1usize, 2, 3] {
+                let mut m = vec![0u8; a]; m.extend(fill(k, ebb, r)); m.push(1);
+                out.push(vcase(b, format!("meta:align={},block={}", a, kinds[k]), splice(bytes, meta, &m)));
+            }
+        }
+        for k in [1usize, 2, 5] { if k == 1 || r.chance(1, 3) { out.push(vcase(b, format!("meta:len=65535,fill={}", kinds[k]), splice(bytes, meta, &fill(k, 65535, r)))); } }
+        // the existing metadata (if any) with single bytes set to 0xFF
+        let body = &bytes[meta.start..meta.end];
+        for i in 0..body.len().min(64) { let mut nb = body.to_vec(); nb[i] = 0xff; out.push(vcase(b, format!("meta:byte{}=ff", i), splice(bytes, meta, &nb))); }
+}
+
 /// Structure-aware mutations of one valid proof.  `budget` bounds the sampled classes; the field classes are exhaustive.
 fn mutations(b: &Base, r: &mut Rng, budget: usize, exhaustive_bits: bool, out: &mut Vec<Case>) {
     let bytes = &b.bytes;
@@ -394,6 +427,17 @@ fn mutations(b: &Base, r: &mut Rng, budget: usize, exhaustive_bits: bool, out: &
     out.push(vcase(b, "valid".into(), bytes.clone()));
     // --- the acceptance policy as the application would set it: exactly the options of the honest proof
     if let Case::V(mut c) = vcase(b, "valid:optionset".into(), bytes.clone()) { c.policy = Some(b.opts); out.push(Case::V(c)); }
+    // proofs generated WITH metadata exist for the metadata class: they get that class, the metadata length field and the
+    // header bit flips only (the other classes are exercised on the proofs without metadata)
+    { let ms = lay.get("ti.meta");
+      if ms.end > ms.start && !exhaustive_bits {
+        meta_mutations(b, &lay, r, out);
+        let (p, w) = ms.pfx.unwrap(); let orig = rd(bytes, p, w).unwrap() as u64;
+        for v in field_values(w, orig) { let mut m = bytes.clone(); set_le(&mut m, p, w, v); out.push(vcase(b, format!("lenfield:ti.meta={}", v), m)); }
+        let hdr = lay.get("commitments").start + 2;
+        for i in 0..hdr { for bit in 0..8 { let mut m = bytes.clone(); m[i] ^= 1 << bit; out.push(vcase(b, format!("bit@{}.{}", i, bit), m)); } }
+        return;
+      } }
     // --- 1. every length / count / size field: overwritten in place (the rest of the proof keeps its bytes)
     for s in &lay.segs {
         if let Some((p, w)) = s.pfx {
@@ -540,37 +584,8 @@ fn mutations(b: &Base, r: &mut Rng, budget: usize, exhaustive_bits: bool, out: &
         let meta = lay.get("ti.meta");
         for k in [1usize, 7, 8, 15, 16, 65535] { out.push(vcase(b, format!("ctx:meta={}", k), splice(bytes, meta, &r.bytes(k)))); }
     }
-    // --- 3b. trace metadata (an untrusted field of the context, absorbed into the coin seed chunk by chunk): re-serialised
-    //         contexts with metadata of every interesting length and filling, at every alignment
-    {
-        let meta = lay.get("ti.meta");
-        let ebb = if b.fld == "f64" { 8usize } else { 16 };
-        let modb: Vec<u8> = if b.fld == "f64" { B64::get_modulus_le_bytes() } else { B128::get_modulus_le_bytes() };
-        let mut modp = modb.clone(); for x in modp.iter_mut() { let (y, c) = x.overflowing_add(1); *x = y; if !c { break; } }   // modulus + 1
-        let mut modm = modb.clone(); for x in modm.iter_mut() { let (y, c) = x.overflowing_sub(1); *x = y; if !c { break; } }   // modulus - 1
-        let fill = |kind: usize, n: usize, r: &mut Rng| -> Vec<u8> { match kind {
-            0 => vec![0u8; n], 1 => vec![0xff; n],
-            2 => modb.iter().cycle().take(n).copied().collect(), 3 => modp.iter().cycle().take(n).copied().collect(),
-            4 => modm.iter().cycle().take(n).copied().collect(), _ => r.bytes(n) } };
-        let kinds = ["00", "ff", "mod", "mod+1", "mod-1", "rnd"];
-        for n in [0usize, 1, ebb - 1, ebb, ebb + 1, 2 * ebb - 1, 2 * ebb, 2 * ebb + 1, 3 * ebb] {
-            for (k, kn) in kinds.iter().enumerate() {
-                if n == 0 && k > 0 { continue; }
-                out.push(vcase(b, format!("meta:len={},fill={}", n, kn), splice(bytes, meta, &fill(k, n, r))));
-            }
-        }
-        // one full-width block of 0xFF / modulus / modulus+1 after `a` zero bytes, followed by one more byte
-        for a in 0..2 * ebb {
-            for k in [1usize, 2, 3] {
-                let mut m = vec![0u8; a]; m.extend(fill(k, ebb, r)); m.push(1);
-                out.push(vcase(b, format!("meta:align={},block={}", a, kinds[k]), splice(bytes, meta, &m)));
-            }
-        }
-        for k in [1usize, 2, 5] { out.push(vcase(b, format!("meta:len=65535,fill={}", kinds[k]), splice(bytes, meta, &fill(k, 65535, r)))); }
-        // the existing metadata (if any) with single bytes set to 0xFF
-        let body = &bytes[meta.start..meta.end];
-        for i in 0..body.len().min(64) { let mut nb = body.to_vec(); nb[i] = 0xff; out.push(vcase(b, format!("meta:byte{}=ff", i), splice(bytes, meta, &nb))); }
-    }
+    // --- 3b. trace metadata
+    meta_mutations(b, &lay, r, out);
     // --- 4. truncation, trailing garbage
     let n = bytes.len();
     let cuts: Vec<usize> = if exhaustive_bits { (0..n).collect() } else { let mut c: Vec<usize> = (0..n.min(64)).collect(); c.extend(lay.segs.iter().flat_map(|s| [s.start.saturating_sub(1), s.start, s.start + 1, s.end.saturating_sub(1)])); for _ in 0..budget / 8 { c.push(r.below(n as u64) as usize); } c.sort_unstable(); c.dedup(); c.retain(|&x| x < n); c };
